@@ -157,7 +157,38 @@ def run(pid, tier, seed, gate, replay=None):
             flags[f] = flags.get(f, 0) + 1
         if fl:
             nontrivial.add(" ".join(s))
+    # end to end: multi-blob blocks written, reclaimed and reused through the real store, then a restart; the scan must
+    # reconstruct the current generation of every block and nothing of the previous one
+    e2e_fail, e2e_n = None, 0
+    if not replay:
+        from . import hybrid as H
+        C.build_harness(["hybridsim"])
+        hs = []
+        for i in range(6 if tier == "thorough" else 2):
+            r = rng.choice([4, 84]) if i else 84           # second blob of a block holds r entries
+            pages = 172 + r
+            per_block, nblocks = 170 + r, 4
+            extra = 170 if i % 2 == 0 else rng.randrange(1, per_block)
+            total = nblocks * per_block + extra
+            ops, ver = [], 1
+            upd = {rng.randrange(per_block + 1, 2 * per_block): rng.randrange(171, per_block)}   # write n updates an old key
+            for n in range(1, total + 1):
+                k = upd.get(n, n)
+                ops += [f"ins k={k} ver={ver} size=3000", "wait"]; ver += 1
+            ops += ["close", "reopen"] + [f"get k={k}" for k in range(1, total + 1)]
+            hs.append(H.cfg_line(policy="woi", algo="fifo", mem=1, univ=total + 1, block=pages * 4096, blocks=nblocks, index=4096)
+                      + "\n" + "\n".join(ops) + "\n")
+        e2e_n = len(hs)
+        for sc, (cfgl, lines) in zip(hs, H.run_many(hs)):
+            o = H.oracle_c01(cfgl, lines)
+            if o:
+                e2e_fail = (sc, lines, o); break
     violations = []
+    if e2e_fail and not failing:
+        sc, lines, o = e2e_fail
+        rp = C.write_replay(pid, seed, "e2e", dict(property=pid, stream="hybridsim/reuse", script=sc, impl_obs=lines[-400:],
+                                                  oracle=dict(failed_at=o[0], what=o[1]), broken=None))
+        violations.append(dict(replay=rp, what=o[1]))
     if failing:
         s, a, b, o = min(failing, key=lambda t: sum(len(x) for x in t[0]))
         rp = C.write_replay(pid, seed, 0, dict(property=pid, stream="fmt/split", script=s, impl_obs=a, model_obs=b,
